@@ -61,6 +61,15 @@ class Teardown(BaseException):
     pass
 
 
+class _Token(object):
+    """Marks a stdlib frame as 'already entered' (stored in frame.f_trace; never called
+    unless a trace function is active, in which case it traces nothing)."""
+    __slots__ = ()
+
+    def __call__(self, frame, event, arg):
+        return None
+
+
 class DeadlockError(BaseException):
     def __init__(self, info):
         BaseException.__init__(self, info)
@@ -441,10 +450,18 @@ class Scheduler(object):
                 elif fc != F_SHIM:
                     break
                 caller = caller.f_back
-            # identity of the outermost stdlib frame; a strong reference is kept until the
-            # thread's next scheduling point so that the address cannot be reused meanwhile
-            same = root is me.root_key
-            self._set_root(me, root)
+            # identity of the outermost stdlib frame: the frame object is tagged through its
+            # (otherwise unused) f_trace slot, so that no reference to the frame - and through
+            # f_back to the whole call stack and its locals - has to be kept
+            tok = root.f_trace
+            same = tok is not None and tok is me.root_key
+            if not same:
+                tok = _Token()
+                try:
+                    root.f_trace = tok
+                except Exception:  # noqa
+                    tok = None
+                me.root_key = tok
             if same:
                 return False
             # entry into a stdlib call: preemptible iff called (transitively) from library code
@@ -461,32 +478,14 @@ class Scheduler(object):
 
     @staticmethod
     def _set_root(me, root):
-        """Replace the remembered root frame without freeing the old one here: releasing a frame
-        may free objects whose weakref callbacks perform lock operations, which must not
-        re-enter the scheduler in the middle of a decision.  The old frame is dropped at the
-        beginning of the thread's next operation (see _flush)."""
-        old = me.root_key
         me.root_key = root
-        if old is not None and old is not root:
-            me.trash.append(old)
 
     @staticmethod
     def _flush(me):
-        t = me.trash
-        me.trash = []
-        del t
+        pass
 
     def _flush_if_safe(self, me):
-        """Drop deferred frame references at the end of an operation, but only when the
-        operation was issued by library / harness code: inside a stdlib method (e.g. between
-        the two statements of _PyRLock.release) a weakref callback taking the same lock
-        would be an artifact of running the pure-Python RLock."""
-        try:
-            c = _file_class(_getframe(3).f_code.co_filename)
-        except ValueError:
-            return
-        if c in (F_LIB, F_OTHER):
-            self._flush(me)
+        pass
 
     # ------------------------------------------------------------- decisions
     def _deadlock_info(self):
